@@ -51,7 +51,9 @@ func (ser *MultiEpoch) getGsfaReadersInEpochDescendingOrderForSlotRange(ctx cont
 	startEpoch := slottools.CalcEpochForSlot(startSlot)
 	endEpoch := slottools.CalcEpochForSlot(endSlot)
 
-	epochs := make([]*Epoch, 0, endEpoch-startEpoch+1)
+	// NOTE: do not size this by endEpoch-startEpoch+1: the slots come from the request and the
+	// unsigned difference wraps around when the end slot precedes the start slot.
+	epochs := make([]*Epoch, 0, len(ser.epochs))
 	for _, epoch := range ser.epochs {
 		if epoch.Epoch() >= startEpoch && epoch.Epoch() <= endEpoch {
 			epochs = append(epochs, epoch)
